@@ -337,6 +337,10 @@ func exprOf(v ssa.Value) string {
 		}
 	case *ssa.Convert:
 		return typeName(x.Type()) + "(" + exprOf(x.X) + ")"
+	case *ssa.UnOp:
+		if al, ok := x.X.(*ssa.Alloc); ok && x.Op == token.MUL && al.Comment != "" {
+			return al.Comment
+		}
 	}
 	return v.Name()
 }
@@ -761,4 +765,198 @@ func sameLocalLoad(a, b ssa.Value) bool {
 	}
 	al, ok := ua.X.(*ssa.Alloc)
 	return ok && ub.X == ssa.Value(al)
+}
+
+// ---- variable indices ---------------------------------------------------------------------------------------
+// upperProven: idx < len(X) is established at block `at` by a dominating branch on the SAME index value:
+// idx < len(X), idx <= len(X)-1 (also through a never-reassigned alias such as highI := len(X)-1), and the
+// negations on false edges; or idx is a range-loop index of X.
+func upperProven(idx ssa.Value, X ssa.Value, at *ssa.BasicBlock) bool {
+	isLen := func(v ssa.Value) bool {
+		call, ok := v.(*ssa.Call)
+		if !ok {
+			return false
+		}
+		bi, ok := call.Call.Value.(*ssa.Builtin)
+		return ok && bi.Name() == "len" && (call.Call.Args[0] == X || sameLocalLoad(call.Call.Args[0], X) || (paramOf(call.Call.Args[0]) != nil && paramOf(X) != nil && paramOf(call.Call.Args[0]) == paramOf(X)))
+	}
+	isLenMinus1 := func(v ssa.Value) bool {
+		bo, ok := v.(*ssa.BinOp)
+		return ok && bo.Op == token.SUB && isLen(bo.X) && isConstInt(bo.Y, 1)
+	}
+	for d := at; d != nil; d = d.Idom() {
+		if len(d.Preds) != 1 {
+			continue
+		}
+		p := d.Preds[0]
+		ifi, ok := p.Instrs[len(p.Instrs)-1].(*ssa.If)
+		if !ok || p.Succs[0] == p.Succs[1] {
+			continue
+		}
+		cmp, ok := ifi.Cond.(*ssa.BinOp)
+		if !ok {
+			continue
+		}
+		taken := p.Succs[0] == d
+		op, l, r := cmp.Op, cmp.X, cmp.Y
+		if !taken {
+			switch op {
+			case token.LSS:
+				op = token.GEQ
+			case token.GEQ:
+				op = token.LSS
+			case token.GTR:
+				op = token.LEQ
+			case token.LEQ:
+				op = token.GTR
+			default:
+				continue
+			}
+		}
+		// the index lives in an address-taken local: the guard and the read load it separately
+		if l != idx && r != idx {
+			if reloadedUnchanged(l, idx, p, at) {
+				l = idx
+			} else if reloadedUnchanged(r, idx, p, at) {
+				r = idx
+			}
+		}
+		// normalise to idx on the left
+		if r == idx {
+			l, r = r, l
+			switch op {
+			case token.LSS:
+				op = token.GTR
+			case token.GTR:
+				op = token.LSS
+			case token.LEQ:
+				op = token.GEQ
+			case token.GEQ:
+				op = token.LEQ
+			}
+		}
+		if l != idx {
+			continue
+		}
+		if (op == token.LSS && isLen(r)) || (op == token.LEQ && isLenMinus1(r)) || (op == token.LSS && isLenMinus1(r)) {
+			return true
+		}
+	}
+	return false
+}
+
+// ruleVarIndex: C03.index.var — variable indices into slice parameters. Sites whose upper bound is established by a
+// dominating guard on the same index value are "proven"; the set of proven sites on the confirmed tree is frozen
+// (by function, parameter and index expression) and must stay proven. Unproven sites are reported, not judged.
+func ruleVarIndex(rule string, frozen map[string]int) func(*Ctx) {
+	return func(c *Ctx) {
+		got := map[string]int{}
+		total, proven := 0, 0
+		firstPos := map[string]token.Pos{}
+		for _, f := range c.srcFuncs() {
+			fn := c.fname(f)
+			for _, b := range f.Blocks {
+				for _, in := range b.Instrs {
+					ia, ok := in.(*ssa.IndexAddr)
+					if !ok {
+						continue
+					}
+					p := paramOf(ia.X)
+					if p == nil {
+						continue
+					}
+					if _, isSlice := p.Type().Underlying().(*types.Slice); !isSlice {
+						continue
+					}
+					if _, isK := ia.Index.(*ssa.Const); isK {
+						continue
+					}
+					total++
+					key := fmt.Sprintf("%s:%s[%s]", fn, p.Name(), exprOf(ia.Index))
+					if _, ok := firstPos[key]; !ok {
+						firstPos[key] = ia.Pos()
+					}
+					if upperProven(ia.Index, ia.X, b) {
+						proven++
+						got[key]++
+					}
+				}
+			}
+		}
+		var keys []string
+		for k := range frozen {
+			keys = append(keys, k)
+		}
+		sort.Strings(keys)
+		for _, k := range keys {
+			fn := k[:strings.LastIndex(k[:strings.Index(k, "[")], ":")]
+			c.check(got[k] >= frozen[k], rule, rule+":"+k, firstPos[k], fn,
+				fmt.Sprintf("%d read(s) %s are dominated by a guard establishing index < len on the same index value", got[k], k[strings.LastIndex(k[:strings.Index(k, "[")], ":")+1:]),
+				fmt.Sprintf("%s: %d of the %d reads that were guarded on the confirmed tree are no longer dominated by `index < len` (or `<= len-1`) on the same index value: the index can run one past the end", k, frozen[k]-got[k], frozen[k]),
+				"an off-by-one between a loop guard and the read it protects panics on the last element (all-on-boundary paths in the rectangle scans)")
+		}
+		var extra []string
+		for k, n := range got {
+			if frozen[k] == 0 {
+				extra = append(extra, fmt.Sprintf("%s x%d", k, n))
+			}
+		}
+		sort.Strings(extra)
+		c.note("%s: %d variable-index reads of slice parameters, %d with a dominating upper-bound guard on the same value; proven but not frozen: %v", rule, total, proven, extra)
+	}
+}
+
+// reloadedUnchanged: g (in the guard block gb) and use (in block ub, whose only predecessor chain back to gb has no
+// writes) are loads of the same address-taken local with no store to it and no call receiving its address between.
+func reloadedUnchanged(g, use ssa.Value, gb, ub *ssa.BasicBlock) bool {
+	ug, ok1 := g.(*ssa.UnOp)
+	uu, ok2 := use.(*ssa.UnOp)
+	if !ok1 || !ok2 || ug.Op != token.MUL || uu.Op != token.MUL {
+		return false
+	}
+	al, ok := ug.X.(*ssa.Alloc)
+	if !ok || uu.X != ssa.Value(al) || ug.Block() != gb {
+		return false
+	}
+	writes := func(in ssa.Instruction) bool {
+		switch x := in.(type) {
+		case *ssa.Store:
+			return x.Addr == ssa.Value(al)
+		case ssa.CallInstruction:
+			for _, a := range x.Common().Args {
+				if a == ssa.Value(al) {
+					return true
+				}
+			}
+		}
+		return false
+	}
+	// after the guard load in its block
+	seen := false
+	for _, in := range gb.Instrs {
+		if in == ssa.Instruction(ug) {
+			seen = true
+			continue
+		}
+		if seen && writes(in) {
+			return false
+		}
+	}
+	// blocks from the guarded successor down to the use block along single-predecessor edges
+	b := uu.Block()
+	for b != nil && b != gb {
+		for _, in := range b.Instrs {
+			if in == ssa.Instruction(uu) {
+				break
+			}
+			if writes(in) {
+				return false
+			}
+		}
+		if len(b.Preds) != 1 {
+			return false
+		}
+		b = b.Preds[0]
+	}
+	return b == gb
 }
